@@ -30,9 +30,22 @@ def plan(tier, seed):
         for n in (0, 1, 2):
             for which in (0, 1):
                 units.append(dict(hfile='attach.py', fname='c09_bare', args=(ci, n, which)))
+        # starred names (outside the signature table, also the starred forms of table names) and
+        # brackets behind the brace run (after a blank they are ordinary text and need no partner)
+        for nb, nc in [(0, 1), (1, 1), (0, 2), (1, 2)]:
+            if ci == 6 and nb > 0:
+                continue
+            for nm in [-1, -2] + [('section*', 'cap*', 'label*', 'in*', 'textbf*', 'def*', 'infty*', 'cup*')[(ci + nb + nc + k) % 8] for k in range(2 if tier == 'quick' else 8)]:
+                bi += 1
+                units.append(dict(hfile='attach.py', fname='c09', args=(ci, nb, nc, (0,) * (nb + nc), bi, ['', ' t'][bi % 2], nm)))
+                units.append(dict(hfile='attach.py', fname='c09', args=(ci, nb, nc, (1,) + (0,) * (nb + nc - 1), bi, '', nm)))
+            if ci != 6:
+                for tail in [' [b]', ' [0,1)', '\n[x', '\t]y', ' [b]{c}']:
+                    bi += 1
+                    units.append(dict(hfile='attach.py', fname='c09', args=(ci, nb, nc, (0,) * (nb + nc), bi, tail, 1)))
     return dict(units=units,
                 bounds={'groups': 'bracket-then-brace shapes %r' % (shapes,), 'separator_lengths': '%r per position, total <= %d, at most 2 non-empty' % (lens, cap),
-                        'separators': 'every character any code point except \\ { } $ %% [ ] NUL DEL CR (first separator not starting with a letter or *)',
-                        'contexts': 'top level, environment body, item, brace argument, $ math, group, bracket argument, align', 'name': 'symbolic letters, length %r, outside the signature table' % (nlens,)},
-                outside=['CR as line break', 'shapes other than brackets-then-braces', 'names in the fixed-signature table'],
-                assumptions=['attach(sep) := every character in {space, tab, LF} and at most one LF'])
+                        'separators': 'every character any code point except \\ { } $ %% [ ] NUL DEL (first separator not starting with a letter or *); LF and CR both count as line breaks',
+                        'contexts': 'top level, environment body, item, brace argument, $ math, group, bracket argument, align', 'name': 'symbolic letters, length %r, outside the signature table; symbolic letters + *; starred forms of table names' % (nlens,), 'tails': 'after a blank behind the brace run: [b], [0,1), [x, ]y, [b]{c} stay text / groups of the surroundings'},
+                outside=['a bracket group directly adjacent to the last brace group (the code attaches it; not in the quantifier)', 'names in the fixed-signature table'],
+                assumptions=['attach(sep) := every character in {space, tab, LF, CR} and at most one of LF/CR'])
